@@ -1412,3 +1412,130 @@ impl<C: Config> Database<C> {
         self.query_kind.get(query_id).await.unwrap()
     }
 }
+
+/// Read-only access for the verification harness (`crate::verif`). Compiled
+/// only with `--cfg qbice_verif`.
+#[cfg(qbice_verif)]
+impl<C: Config> Engine<C> {
+    /// The current timestamp (epoch) of the engine.
+    pub(crate) fn verif_current_timestamp(&self) -> u64 {
+        unsafe { self.get_current_timestamp_unchecked().0 }
+    }
+
+    /// Whether the edge `from -> to` is in the dirty set (whether or not it
+    /// is a recorded forward edge of `from`).
+    pub(crate) async fn verif_is_edge_dirty(
+        &self,
+        from: &QueryID,
+        to: &QueryID,
+    ) -> bool {
+        self.is_edge_dirty(*from, *to).await
+    }
+
+    /// The stored result of the query `query_id` of type `Q`.
+    pub(crate) async fn verif_query_result<Q: Query>(
+        &self,
+        query_id: &QueryID,
+    ) -> Option<Q::Value> {
+        self.computation_graph
+            .database
+            .query_store
+            .get::<QueryResult<Q>>(&query_id.compact_hash_128())
+            .await
+            .map(|x| x.0)
+    }
+
+    /// Reads every column of the node `query_id`. Takes no query lock and no
+    /// computing lock and writes nothing; meant to be called while no query
+    /// and no input session is running.
+    pub(crate) async fn verif_dump_node(
+        &self,
+        query_id: &QueryID,
+    ) -> Option<crate::verif::NodeDump> {
+        use crate::verif::{DumpDependency, DumpObservation, NodeDump};
+
+        let database = &self.computation_graph.database;
+
+        let kind = database.query_kind.get(query_id).await;
+        let last_verified =
+            database.last_verified.get(query_id).await.map(|x| x.0.0);
+        let node_info = database.node_info.get(query_id).await;
+        let forward_edge_order =
+            database.forward_edge_order.get(query_id).await;
+        let forward_edge_observation =
+            database.forward_edge_observation.get(query_id).await;
+        let pending_backward_projection = database
+            .pending_backward_projection
+            .get(query_id)
+            .await
+            .map(|x| x.0.0);
+        let backward_edges: Vec<QueryID> =
+            database.backward_edges.get(query_id).await.collect();
+
+        if kind.is_none()
+            && last_verified.is_none()
+            && node_info.is_none()
+            && forward_edge_order.is_none()
+            && forward_edge_observation.is_none()
+            && pending_backward_projection.is_none()
+            && backward_edges.is_empty()
+        {
+            return None;
+        }
+
+        let mut dirty_forward_edges = Vec::new();
+        if let Some(order) = &forward_edge_order {
+            for callee in order.iter_all_callees() {
+                if self.is_edge_dirty(*query_id, callee).await {
+                    dirty_forward_edges.push(callee);
+                }
+            }
+        }
+
+        Some(NodeDump {
+            kind: kind.map(|x| match x {
+                QueryKind::Input => None,
+                QueryKind::Executable(style) => Some(style),
+            }),
+            last_verified,
+            value_fingerprint: node_info
+                .as_ref()
+                .map(|x| x.fingerprint.to_u128()),
+            transitive_firewall_callees_fingerprint: node_info
+                .as_ref()
+                .map(|x| x.transitive_firewall_callees_fingerprint.to_u128()),
+            transitive_firewall_callees: node_info
+                .as_ref()
+                .map(|x| x.transitive_firewall_callees.iter().copied().collect()),
+            forward_edges: forward_edge_order.map(|order| {
+                order
+                    .0
+                    .iter()
+                    .map(|dep| match dep {
+                        NodeDependency::Single(x) => DumpDependency::Single(*x),
+                        NodeDependency::Unordered(x) => {
+                            DumpDependency::Unordered(x.clone())
+                        }
+                    })
+                    .collect()
+            }),
+            observations: forward_edge_observation.map(|x| {
+                x.0.iter()
+                    .map(|(callee, observation)| DumpObservation {
+                        callee: *callee,
+                        seen_value_fingerprint: observation
+                            .seen_value_fingerprint
+                            .to_u128(),
+                        seen_transitive_firewall_callees_fingerprint:
+                            observation
+                                .seen_transitive_firewall_callees_fingerprint
+                                .to_u128(),
+                    })
+                    .collect()
+            }),
+            pending_backward_projection,
+            dirty_forward_edges,
+            backward_edges,
+        })
+    }
+}
